@@ -1,5 +1,5 @@
-// Counterexample found by mirsym/z3 for property C20, template pair_nested_pair: |x, y, z| { z == (y, p0), q == (x, z), x == p1, y == [x] } with parameters [0, 0]: an answer (term or reported constraint) mentions the program variable(s) ['y'] instead of reified `_` variables
-// Replay: /verif/check C20 --replay /verif/replay/cases/C20-pair_nested_pair_unreified_variable.rs
+// Counterexample found by mirsym/z3 for property C20, template pair_fd_nested: |x, y, z, w| { z == (y, p0), w == (x, z), q == [w], infdrange([x, y], &(0..=1)), diseqfd(x, y) } with parameters [0]: an answer (term or reported constraint) mentions the program variable(s) ['y'] instead of reified `_` variables
+// Replay: /verif/check C20 --replay /verif/replay/cases/C20-pair_fd_nested_unreified_variable.rs
 #![allow(unused_imports, unused_variables, unused_mut)]
 use proto_vulcan::prelude::*;
 use proto_vulcan::lterm::LTerm;
@@ -65,9 +65,8 @@ fn replay() {
 
 fn body() {
     let p0: T = LTerm::from(0);
-    let p1: T = LTerm::from(0);
     let query = proto_vulcan_query!(|q| {
-        |x, y, z| { z == (y, p0), q == (x, z), x == p1, y == [x] }
+        |x, y, z, w| { z == (y, p0), w == (x, z), q == [w], infdrange([x, y], &(0..=1)), diseqfd(x, y) }
     });
     for r in query.run().take(LIMIT) {
         let s = format!("{}", r.q);
